@@ -58,7 +58,9 @@ inline long double model_value(const double * sizes, int n, const std::vector<lo
 {
     long double lin = 0;
     for (int k = 0; k < n; ++k) lin = lin * sizes[k] + c[k];
-    return 0.5L + 64.0L * j + lin;
+    // deliberately not representable in float (nor exactly in double): a layer that rounds stored values through a
+    // narrower type is visible; both the filler and the interpreter round this one long double value to the storage type
+    return 0.1L + 64.3L * j + lin / 3.0L;
 }
 
 inline uint64_t ref_rowmajor(const double * sizes, int n, const std::vector<long double> & c)
